@@ -10,6 +10,19 @@ TARGETS = ["Props/C14.vo"]
 def rand_lattice(rng):
     from diffpy.structure.lattice import Lattice
     k = rng.random()
+    if k < 0.15:
+        # edited after construction through one property / a partial setLatPar: every cached matrix must follow
+        L = Lattice(*latlive.rand_cell(rng))
+        for _ in range(rng.randint(1, 2)):
+            cell = latlive.rand_cell(rng)
+            p = rng.choice(["alpha", "beta", "gamma", "a", "c"])
+            cur = dict(zip(["a", "b", "c", "alpha", "beta", "gamma"], L.abcABG()))
+            cur[p] = cell[["a", "b", "c", "alpha", "beta", "gamma"].index(p)]
+            import math
+            ca, cb, cg = (math.cos(math.radians(cur[x])) for x in ("alpha", "beta", "gamma"))
+            if 1 + 2 * ca * cb * cg - ca * ca - cb * cb - cg * cg > 0.05:
+                setattr(L, p, cur[p])
+        return L
     if k < 0.4:
         return Lattice(*latlive.rand_cell(rng))
     if k < 0.7:
